@@ -78,6 +78,24 @@ theorem stochasticRsi_formula (N : Nat) (p : Nat) (fs : List ℝ) (h0 : 1 ≤ p)
   · simp [PS.mmax, PS.mmin, PS.map2, Spec.rsi, PS.map]
   · intro i _; rfl
 
+/-- StochasticRsi whose RSI period `rp` differs from the min/max look-back `w` -/
+theorem stochasticRsiG_formula (N : Nat) (rp w : Nat) (fs : List ℝ) (h0 : 1 ≤ rp) (h1 : 1 ≤ w) (x : Nat → Nat → ℝ) :
+    ∃ e ps, lookup "StochasticRsiG" [rp, w] fs = some e ∧ Spec.formulas N "StochasticRsiG" [rp, w] fs x = some ps ∧
+      List.Forall₂ (Agree x) e.outs ps := by
+  refine ⟨_, _, rfl, rfl, ?_⟩
+  refine List.Forall₂.cons ?_ List.Forall₂.nil
+  have hr := rsi_agree N rp h0 x
+  simp only [Ind.stochasticRsiG, Ind.div, Ind.sub, Ind.i0, List.getD_cons_zero, List.getD_cons_succ]
+  have hmn := Sig.Agree.movingMin w h1 hr
+  have hmx := Sig.Agree.movingMax w h1 hr
+  have hr0 := Sig.Agree.skip (w - 1) hr
+  have num := Sig.Agree.zip (fun a b => a - b) hr0 hmn rfl
+  have den := Sig.Agree.zip (fun a b => a - b) hmx hmn rfl
+  have q := Sig.Agree.zip (fun a b => a / b) num den rfl
+  refine q.cast ?_ ?_
+  · simp [PS.mmax, PS.mmin, PS.map2, Spec.rsi, PS.map]
+  · intro i _; rfl
+
 /-- an accumulator over two aligned streams (`scan2` whose state is its output) is the documented
     running recurrence `acc_i = F acc_{i-1} a_i b_i` started from `init` -/
 theorem agree_accum2 {x : Nat → Nat → ℝ} {a b : Sig ℝ} {PA PB : PS ℝ} (N : Nat) (init : ℝ) (F : ℝ → ℝ → ℝ → ℝ)
